@@ -31,6 +31,43 @@ def c07_sig_newline(c, i, m, finding):
     return any(_hex_has_nl(t) for t in files + streams)
 
 
+def c07_fact_format_under_lock(repo):
+    """offsetDB.save reads job.filename / job.offsets and formats the stream lines of a job inside ONE
+    job.mu critical section (Model/CommitSnap.lean: `saveVisit` copies a job's whole table in one op)"""
+    import os, re
+    src = open(os.path.join(repo, "plugin/input/file/offset.go")).read()
+    a = src.find("func (o *offsetDB) save(")
+    if a < 0:
+        return False, "offsetDB.save not found"
+    body = src[a:]
+    b = body.find("for _, job := range snapshot {")
+    e = body.find("file.Write(o.buf)")
+    if b < 0 or e < b:
+        return False, "the per-job loop of offsetDB.save was not recognised"
+    lines = [l.strip() for l in body[b:e].split("\n")]
+    locked, seen_streams = False, False
+    for n, l in enumerate(lines):
+        if l.startswith("//"):
+            continue
+        if "job.mu.Lock()" in l:
+            locked = True
+            continue
+        if "job.mu.Unlock()" in l:
+            nxt = next((x for x in lines[n + 1:] if x and not x.startswith("//")), "")
+            if nxt != "continue":      # the early `continue` branch leaves the loop iteration
+                locked = False
+            continue
+        uses = re.search(r"\bjob\.(offsets|filename)\b|\bstrOff\.|\brange\s+\w*[oO]ffsets\b", l)
+        if uses:
+            if "range" in l or "strOff." in l:
+                seen_streams = True
+            if not locked:
+                return False, "outside the job.mu critical section: " + l[:120]
+    if not seen_streams:
+        return False, "the stream-formatting loop was not recognised"
+    return True, ""
+
+
 def c07_nontrivial(c, i):
     if not c:
         return False
@@ -41,7 +78,7 @@ def c07_nontrivial(c, i):
     if c[0] == "c07.seq":
         return "s" in i
     if c[0] == "c07.conc":
-        return "se" in i
+        return "s" in i
     if c[0] == "c07.proto":
         return len(i) > 0 and i[0].isdigit() and int(i[0]) >= 1  # at least one syscall of the save observed
     return False
@@ -70,13 +107,17 @@ def c07_classify(c, i):
         if "corrupt" in i: out.append("offset-corruption-panic")
         if "t" in i: out.append("truncate")
     elif kind == "conc":
-        # did a commit fall inside a save (between ss and se)?
-        inside, overlap = False, False
-        for t in i:
-            if t == "ss": inside = True
-            elif t == "se": inside = False
-            elif inside and (t.startswith("cs.") or t.startswith("cd.")): overlap = True
-        out.append("commit-during-save" if overlap else "no-overlap")
+        # width of the jobs and how many commits of one source fell inside a save
+        n = int(c[1]); streams = int(c[2]) * (1 + int(c[3]))
+        out.append("streams/job=" + ("2-50" if streams <= 50 else "51-500" if streams <= 500 else "500+"))
+        k, w = 0, 0
+        while k < len(i):
+            if i[k] == "s" and k + 2 * n < len(i):
+                lo = [int(x) for x in i[k + 1:k + 1 + n]]; hi = [int(x) for x in i[k + 1 + n:k + 1 + 2 * n]]
+                w = max([w] + [h - l for h, l in zip(hi, lo)]); k += 1 + 2 * n
+            else:
+                k += 1
+        out.append("commits-during-save=" + ("0" if w == 0 else "1-9" if w < 10 else "10-999" if w < 1000 else "1000+"))
     elif kind == "proto":
         out.append("variant=" + c[1])
         nf = int(c[2]) if c[2].isdigit() else 0
@@ -95,10 +136,11 @@ CFG = {
         "technique": "Lean 4 proof (round trip by induction over the table; inductive invariant over all op lists of the save protocol) + differential correspondence (function harness and strace fault/kill injection)",
     },
     "props_modules": ["FileD.Props.C07"],
+    "facts": [("offsetDB.save formats a job's streams inside its job.mu critical section", c07_fact_format_under_lock)],
     "nontrivial": c07_nontrivial,
     "classify": c07_classify,
     "signatures": {"c07_sig_newline": c07_sig_newline},
-    "rule": "process part: the save re-executed under strace for every single fault (EIO) and every kill point (SIGKILL at syscall entry) of open/write/fsync/rename/close/unlink, both protocols, plus first-save and two-fault cases (thorough: +330 random tables/blobs with 0-2 faults); function part: every stream name over {a,':',' ','-'} up to length 3 (thorough 4), pairs of them, the same as file names, a pool of names events can carry (':'-containing, UTF-8, control bytes, 1-6 kB, empty, with newline) x boundary offsets (0 … 2^63-1), random tables (0-4 jobs, 0-4 streams, duplicate sources/streams), every truncation and single-byte deletion of a two-job file, hand-written malformed files, random mutations of valid files, random strings over the format alphabet, random sequential schedules of real commits/truncations/saves, and committing goroutines racing a saving goroutine (each loaded entry must be that source's state after k commits, k between the commits returned before the save started and those started before it returned); distinct = distinct case line; non-trivial = something was loaded back / a save syscall was observed",
+    "rule": "process part: the save re-executed under strace for every single fault (EIO) and every kill point (SIGKILL at syscall entry) of open/write/fsync/rename/close/unlink, both protocols, plus first-save and two-fault cases (thorough: +330 random tables/blobs with 0-2 faults); function part: every stream name over {a,':',' ','-'} up to length 3 (thorough 4), pairs of them, the same as file names, a pool of names events can carry (':'-containing, UTF-8, control bytes, 1-6 kB, empty, with newline) x boundary offsets (0 … 2^63-1), random tables (0-4 jobs, 0-4 streams, duplicate sources/streams), every truncation and single-byte deletion of a two-job file, hand-written malformed files, random mutations of valid files, random strings over the format alphabet, random sequential schedules of real commits/truncations/saves, and committing goroutines racing the saver on jobs with 2-200 streams and with ~2000 streams (commit k of a source carries offset k round-robin over its racing streams, so the job's table is a function of k: the WHOLE loaded table of a source must equal its table after ONE k, with k between the commits returned before the save started and those started before it returned); distinct = distinct case line; non-trivial = something was loaded back / a save syscall was observed",
     "corr_name": "OffsetsFile.render/parse = offsetDB.save/load/parse (file bytes and loaded table); CommitSnap.step? = jobProvider.commit/truncateJob + save (sequential schedules exactly; concurrent runs through the history-window oracle); SaveProto.step? (fileFixed, genFixed) accepts the observed syscall trace and predicts the file left on disk",
     "trusted_base": [
         "strace 6.1 fault injection (-e inject=<syscall>:error=EIO|signal=KILL:when=N); SIGKILL is delivered at syscall entry (the syscall is not executed)",
